@@ -232,6 +232,14 @@ func (c *Ctx) atom(a string) Value {
 	if _, err := strconv.ParseFloat(a, 64); err == nil && strings.Contains(a, ".") {
 		return Raw(a, SReal)
 	}
+	if strings.HasPrefix(a, "$") {
+		if c.ex != nil {
+			if v, ok := c.ex.callRes[a[1:]]; ok {
+				return v
+			}
+		}
+		c.fail("no call result %s", a)
+	}
 	// dotted path: name.field.field
 	parts := strings.Split(a, ".")
 	if v, ok := c.lookupName(a); ok {
